@@ -239,7 +239,27 @@ func cutoffExplains(g *ref.Graph, doc *ref.Value) bool {
 			return
 		}
 		if v.Kind == ref.KNull {
-			return // (null under nullable: nothing below it)
+			// null where the schema says so (a null literal, nullable: true): nothing below it;
+			// anywhere else it is not what the builder writes for this node
+			b, ok := n.BoolRule("nullable")
+			switch {
+			case ok && b, n.Kind == ref.SLit:
+			case n.Kind == ref.SRef:
+				// a reference to scalar types may stand for null (a null literal, an enum that lists it);
+				// one to containers only does not
+				scalar := false
+				for _, nm := range n.Names {
+					if t := g.Types[nm]; t == nil || t.Kind == ref.SLit || t.Kind == ref.SRef {
+						scalar = true
+					}
+				}
+				if !scalar {
+					other++
+				}
+			default:
+				other++
+			}
+			return
 		}
 		if n.Kind == ref.SRef {
 			// the alternative whose root kind fits the value
@@ -335,6 +355,9 @@ func cutoffExplains(g *ref.Graph, doc *ref.Value) bool {
 			minItems := 0
 			if r := n.Rule("minItems"); r != nil {
 				minItems, _ = strconv.Atoi(r.Tok)
+			}
+			if len(v.Items) > len(n.Items) {
+				other++ // (the builder writes one item per item of the schema, never more)
 			}
 			for i, it := range n.Items {
 				if i >= len(v.Items) {
